@@ -20,7 +20,7 @@ TECHNIQUE = 'dense grid sweep + explicit boundary probing against NIST reference
 RULE = ('8 types x {forward, inverse, totality, boundaries, scaling}; grid blocks of 12,500 points; non-trivial = every grid block; distinct = '
         '(type, part, block)')
 ASSUMPTIONS = ['NIST inverse functions are only specified on their validity range; outside it only totality (no NaN) is required']
-REQUIRED = ['purity_calls', 'forward_points', 'inverse_points', 'boundary_probes', 'monotone_pairs', 'totality_points', 'scaling_points', 'through_channel']
+REQUIRED = ['chained_scalings', 'default_direction_cases', 'purity_calls', 'forward_points', 'inverse_points', 'boundary_probes', 'monotone_pairs', 'totality_points', 'scaling_points', 'through_channel']
 TYPES = 'BEJKNRST'
 CODES = {'B': 10047, 'E': 10055, 'J': 10072, 'K': 10073, 'N': 10077, 'R': 10082, 'S': 10085, 'T': 10086}
 BANDS = {
@@ -228,9 +228,29 @@ def scaling(case, ctx):
         ctx.violation('scaling/scale-modifies-its-input/%s' % L, {'direction': d})
     elif not np.array_equal(np.asarray(direct), np.asarray(sc.scale(x)), equal_nan=True):
         ctx.violation('scaling/second-scale-call-differs/%s' % L, {'direction': d})
-    for label, got in (('direct', direct), ('channel', through)):
+    # an earlier result must survive a later conversion of the same shape (same thermocouple object)
+    keep_direct = np.array(direct, dtype='f8').tobytes()
+    sc.scale(x[::-1].copy())
+    S.ThermocoupleScaling(CODES[L], d, SG.RAW).scale(x[::-1].copy())
+    if np.array(direct, dtype='f8').tobytes() != keep_direct:
+        ctx.violation('scaling/earlier-result-overwritten-by-later-call/%s' % L, {'direction': d})
+    # chained: a Linear scale (identity or unit change) feeding the thermocouple scale through its input source
+    k_ = rng.choice([1.0, 1e3])
+    chain = [dict(kind='Linear', slope=k_, intercept=0.0, src=SG.RAW), dict(desc, src=0)]
+    segs2 = M.build_file(random.Random(0), [('g', 'c', 'f64', len(inputs), SG.graph_props(chain))], nseg=1, nchunks=(1,), values_fn=lambda p, t, n: inputs / k_)
+    chained = TdmsFile.read(io.BytesIO(M.encode_file(segs2)[0]))['g']['c'][:]
+    ctx.count('chained_scalings')
+    # defaults: a missing Scaling_Direction means voltage -> temperature (0), a missing type means J
+    extra = []
+    if d == 0:
+        pl = [(n_, t_, v_) for n_, t_, v_ in SG.graph_props([desc]) if not n_.endswith('Scaling_Direction')]
+        segs3 = M.build_file(random.Random(0), [('g', 'c', 'f64', len(inputs), pl)], nseg=1, nchunks=(1,), values_fn=lambda p, t, n: inputs)
+        extra.append(('channel-default-direction', TdmsFile.read(io.BytesIO(M.encode_file(segs3)[0]))['g']['c'][:]))
+        ctx.count('default_direction_cases')
+    for label, got in [('direct', direct), ('channel', through), ('chained-input-source', chained)] + extra:
         if d == 1:
-            ok = np.abs(got - 1000.0 * Vmv) <= 1000.0 * (8 * np.finfo('f8').eps * bound) + 1e-300
+            slack = 1e-9 * np.abs(1000.0 * Vmv) + 1e-9 if label.startswith('chained') else 0.0     # x/k*k is not exact
+            ok = np.abs(got - 1000.0 * Vmv) <= 1000.0 * (8 * np.finfo('f8').eps * bound) + 1e-300 + slack
             if not ok.all():
                 i = int(np.nonzero(~ok)[0][0])
                 ctx.violation('scaling/celsius-to-microvolt/%s/%s' % (L, label), {'T': float(T[i]), 'got_uV': float(got[i]), 'reference_uV': float(1000 * Vmv[i])})
